@@ -30,6 +30,8 @@ inductive Src where
   | lookup        -- `get_connection_id_of`
   | checkConnected -- `is_connected`
   | giveBack      -- `release_offset`
+  -- publisher (publisher.rs `send_sample`)
+  | addHistory    -- `add_sample_to_history`
 deriving DecidableEq, Repr
 
 /-! ## Blackboard entry: loan-style update ∥ readers -/
